@@ -45,6 +45,10 @@ package keeper
 // ---------------------------------------------------------------------------------------------
 // Dogfood EndBlock: guard obligations on the calls it makes (C06 cap and minimum power of the new set,
 // C07 registry maintenance under the chain id without revision, C06 non-epoch blocks report an empty update list)
+// C06 diff against the previous set: an eligible operator is skipped only when its key is in the previous set with the
+// very same power, otherwise its key is queued with its new power; each one adds its power to the total; the previous
+// validators still left in the map - and only they - are queued with power 0; the total that is stored and the list that
+// is applied are the ones computed here. (What the map holds after the first loop is not specified: Go maps are opaque.)
 //@ func (Keeper).EndBlock
 //@   flag pure=IsEpochEnd,ChainIDWithoutRevision,GetPendingUndelegations,GetList,GetPendingOptOuts,GetPendingConsensusAddrs,GetAllExocoreValidators,ConsPubKey,GetConsAddress,GetActiveOperatorsForChainID,GetVotePowerForChainID,SortByPower,GetMaxValidators,ToConsAddr,NewWrappedConsKeyFromSdkKey,Logger
 //@   flag havoc=SetValidatorUpdates,ClearEpochEnd,ClearPreviousConsensusKeys,DecrementUndelegationHoldCount,ClearUndelegationMaturityEpoch,ClearPendingUndelegations,CompleteOperatorKeyRemovalForChainID,ClearPendingOptOuts,DeleteOperatorAddressForChainIDAndConsAddr,ClearPendingConsensusAddrs,SetLastTotalPower,ApplyValidatorChanges
@@ -55,6 +59,8 @@ package keeper
 //@   before[C07.eb.complete,C16.eb.complete]  CompleteOperatorKeyRemovalForChainID requires res_IsEpochEnd_0 && arg_chainID == res_ChainIDWithoutRevision_0
 //@   before[C07.eb.prune,C16.eb.prune]  DeleteOperatorAddressForChainIDAndConsAddr requires res_IsEpochEnd_0 && arg_chainID == res_ChainIDWithoutRevision_0
 //@   before[C16.eb.release]   DecrementUndelegationHoldCount requires res_IsEpochEnd_0
+//@   before[C06.eb.total.stored] SetLastTotalPower requires arg_power == totalPower && len(res) > 0
+//@   before[C06.eb.apply] ApplyValidatorChanges requires arg_changes == res
 //@ loop #1
 //@   invariant true
 //@ loop #2
@@ -66,8 +72,14 @@ package keeper
 //@ loop #5
 //@   invariant[C06.eb.cap]      rangeindex == -1 || rangeindex < res_GetMaxValidators_0
 //@   invariant[C06.eb.minpower] rangeindex == -1 || res_SortByPower_2[rangeindex] >= 1
+//@   step[C06.eb.diff.entry] len(res) == len(prev_res) || (len(res) == len(prev_res) + 1 && res[len(prev_res)].Power == res_SortByPower_2[rangeindex] &&
+//@        res[len(prev_res)].Key == res_SortByPower_1[rangeindex])
+//@   step[C06.eb.diff.skip] len(res) == len(prev_res) ==> found && prevPower == power
+//@   step[C06.eb.total] val(totalPower) == val(prev_totalPower) + res_SortByPower_2[rangeindex]
 //@ loop #6
 //@   invariant true
+//@   step[C06.eb.removed] len(res) == len(prev_res) || (len(res) == len(prev_res) + 1 && res[len(prev_res)].Power == 0)
+//@   step[C06.eb.removed.iff] (len(res) == len(prev_res) + 1) == exists
 
 // ---------------------------------------------------------------------------------------------
 // C18: each genesis-export accessor iterates the prefix of its own collection
